@@ -134,6 +134,24 @@ func (d *Decls) KeyedAxioms(body string) string {
 	return sb.String()
 }
 
+// PreludeQF: declarations plus the quantifier-free axioms only (used for feasibility pruning).
+func (d *Decls) PreludeQF() string {
+	var sb strings.Builder
+	for _, t := range d.order {
+		sb.WriteString(t)
+		sb.WriteString("\n")
+	}
+	for _, a := range d.axioms {
+		if strings.Contains(a, "(forall ") || strings.Contains(a, "(exists ") {
+			continue
+		}
+		sb.WriteString("(assert ")
+		sb.WriteString(a)
+		sb.WriteString(")\n")
+	}
+	return sb.String()
+}
+
 func (d *Decls) Prelude() string {
 	var sb strings.Builder
 	for _, t := range d.order {
@@ -316,6 +334,15 @@ func (d *Decls) SubRef(t types.Type, i int) string {
 func sortKey(s Sort) string { return sanitize(string(s)) }
 
 // element heap for slices/arrays of leaf sort s
+// ElemHeapT: element heap for slices/arrays whose element type is et. Heaps are split by Go element
+// type: Go's type system rules out aliasing between backing arrays of different element types.
+func (d *Decls) ElemHeapT(et types.Type) string {
+	s := d.SortOf(et)
+	name := "E_" + typeName(et)
+	d.konst(name, Sort(fmt.Sprintf("(Array Ref (Array Int %s))", s)))
+	return name
+}
+
 func (d *Decls) ElemHeap(s Sort) string {
 	name := "E_" + sortKey(s)
 	d.konst(name, Sort(fmt.Sprintf("(Array Ref (Array Int %s))", s)))
